@@ -13,8 +13,17 @@
                sig (key that made its signature | "forged" | "replay" | "digest" | "hmac" | "unknownsig" | "hmacpub" | "digestkl" | "wrongtype"), serv (yes|nack|timeout|absent)]
      W.pkts    packet name -> [kl, sig]
      W.epoch   number of Heal steps so far (the set of retrievable certificates changes only there)
-     W.sch, W.kt, W.q   labels for the executor (which LVS text / key type materialises the world) and witnesses
-   Crypto is abstract: a signature verifies under a certificate iff sig = that certificate's key.
+     W.alg     key -> algorithm of that key pair (KeyAlgs; a key that is not listed is "p256"): ECDSA on the curves
+               P-224 / P-256 / P-384 / P-521, RSA with a 1024 / 2048 / 3072 bit modulus, Ed25519. The keys of one
+               hierarchy are of several algorithms: the anchor's key, the key of an intermediate certificate and the
+               key that signs the packet each have their own.
+     W.sch, W.q   labels for the executor (which LVS text materialises the world) and witnesses
+   Crypto is abstract: a signature verifies under a certificate iff sig = that certificate's key - WHATEVER the
+   algorithm of that key is. No clause of ChainExists / GoodAnchor reads W.alg: the verdict over a hierarchy is the
+   same for every assignment of algorithms to its keys (anchor, intermediate certificates, packet signer). The only
+   reader of W.alg is the deviation Ed25519Unsupported. The executor materialises every key with its algorithm
+   (curve / modulus size), so the encodings that depend on it (length forms of the DER signature, of the
+   SignatureValue and of the certificate's Content) occur in every role.
    Names identify certificates (one certificate is served per name).
 
    Implementation shape: one validator instance per application/face; a validation is a stack of
@@ -65,7 +74,12 @@ SchemaOk(a, b) == <<W.shape[a], W.shape[b]>> \in W.schema
 Covers(sh) == IF sh \in DOMAIN W.covers THEN W.covers[sh] ELSE {}
 GoodAnchor(a) == /\ W.roots # {} /\ W.roots \subseteq Covers(W.shape[a])
                  /\ W.certs[a].sig = W.certs[a].key            \* properly self-signed
-KeyTypeEd == "kt" \in DOMAIN W /\ W.kt = "ed"
+\* key algorithms (the order is used by the world generators below)
+AlgSeq == <<"p256", "p384", "p521", "p224", "rsa1024", "rsa2048", "ed">>
+AlgSeqT == AlgSeq \o <<"rsa3072">>
+KeyAlgs == {AlgSeqT[i] : i \in 1..Len(AlgSeqT)}
+AlgOf(k) == IF k \in DOMAIN W.alg THEN W.alg[k] ELSE "p256"
+IsEd(k) == AlgOf(k) = "ed"
 
 -----------------------------------------------------------------------------
 (* The property: a chain exists.  Declarative form over the certificate graph ... *)
@@ -127,10 +141,10 @@ Quiescent == \A v \in Slots : ~Busy(v)
 \* lvs_validator(checker, app, anchor): built, or refused with ValueError
 NewValidator(v, a) ==
   /\ Quiescent /\ inst[v].k = "none" /\ a \in AnchorChoice(v) /\ a \in DOMAIN W.certs
-  /\ \/ /\ NoDev("Ed25519Unsupported", GoodAnchor(a) /\ KeyTypeEd)
+  /\ \/ /\ NoDev("Ed25519Unsupported", GoodAnchor(a) /\ IsEd(W.certs[a].key))
         /\ inst' = [inst EXCEPT ![v] = [k |-> IF GoodAnchor(a) THEN "ok" ELSE "refused", anchor |-> a, good |-> GoodAnchor(a)]]
-     \/ \* DEVIATION: an Ed25519 self-signature is never accepted, the anchor is refused
-        /\ Dev("Ed25519Unsupported", GoodAnchor(a) /\ KeyTypeEd)
+     \/ \* DEVIATION: a self-signature made with an Ed25519 key is never accepted, the anchor is refused
+        /\ Dev("Ed25519Unsupported", GoodAnchor(a) /\ IsEd(W.certs[a].key))
         /\ inst' = [inst EXCEPT ![v] = [k |-> "refused", anchor |-> a, good |-> TRUE]]
   /\ UNCHANGED <<W, cache, val, wire, out, nval>>
   /\ Track
@@ -240,7 +254,7 @@ VerifySig(v) ==
   /\ LET st == val[v].stack
          x == Top(st)
          good == El(x).sig = val[v].vk IN
-       \/ /\ NoDev("Ed25519Unsupported", good /\ KeyTypeEd)
+       \/ /\ NoDev("Ed25519Unsupported", good /\ IsEd(val[v].vk))
           /\ \/ /\ ~good
                 /\ val' = [val EXCEPT ![v].pc = "reject"] /\ UNCHANGED cache
              \/ /\ good /\ Len(st) = 1
@@ -249,8 +263,8 @@ VerifySig(v) ==
                 /\ good /\ Len(st) > 1
                 /\ cache' = [cache EXCEPT ![I(v)] = @ \cup {x}]
                 /\ val' = [val EXCEPT ![v].stack = SubSeq(st, 1, Len(st) - 1), ![v].vk = W.certs[x].key]
-       \/ \* DEVIATION: Ed25519 signatures are never accepted
-          /\ Dev("Ed25519Unsupported", good /\ KeyTypeEd)
+       \/ \* DEVIATION: a signature to be verified under an Ed25519 key is never accepted (whatever the other keys of the chain are)
+          /\ Dev("Ed25519Unsupported", good /\ IsEd(val[v].vk))
           /\ val' = [val EXCEPT ![v].pc = "reject"] /\ UNCHANGED cache
   /\ UNCHANGED <<W, inst, wire, out, nval>>
   /\ Track
@@ -282,7 +296,8 @@ FairSpec == Spec /\ Fair
 \* every validation ends (with the network answering or timing out)
 Terminates == \A v \in Slots : (val[v].k = "run") ~> (val[v] = NoVal)
 
-TypeOK == /\ \A v \in Inst : inst[v].k \in {"none", "ok", "refused"}
+TypeOK == /\ \A k \in DOMAIN W.alg : W.alg[k] \in KeyAlgs
+          /\ \A v \in Inst : inst[v].k \in {"none", "ok", "refused"}
           /\ \A v \in Slots : val[v].k = "run" => val[v].pc \in {"check", "key", "fetching", "verify", "accept", "reject", "diverged"}
           /\ dev \subseteq (Allowed \cup Forced) /\ nodev \subseteq Allowed
 StackBounded == \A v \in Slots : val[v].k = "run" => Len(val[v].stack) <= MaxChain + 1
@@ -306,9 +321,11 @@ Peer == Strict \cup {<<"c1", "c1">>, <<"c1", "c2">>, <<"c1", "c3">>, <<"c1", "x"
 \* The signature TYPE of a link is the adversary's choice as well: "hmacpub" = HMAC_WITH_SHA256 keyed with the PUBLIC
 \* key bits of the named certificate (anybody can compute it), "digestkl" = DigestSha256 with a key locator,
 \* "wrongtype" = a signature of another algorithm than the named certificate's key (ECDSA under an RSA key, ...).
+\* "wrongcurve" = a genuine signature of the SAME SignatureType made with a key of another size than the named
+\* certificate's key (ECDSA on another curve, RSA with another modulus length; Ed25519 has one size: as "wrongtype").
 \* None of them is a signature that verifies under the certificate's public key: all must be rejected.
 \* A validator call that raises instead of returning is neither verdict: the executor reports it (raised:<Exception>).
-LinkDevs == {"forged", "subst", "nokl", "digest", "hmac", "unknownsig", "hmacpub", "digestkl", "wrongtype"}
+LinkDevs == {"forged", "subst", "nokl", "digest", "hmac", "unknownsig", "hmacpub", "digestkl", "wrongtype", "wrongcurve"}
 CertDevs == {"shape", "absent", "nack", "timeout"}         \* at links whose signer is a fetched certificate, 1..d-1
 Params(maxd) ==
   {[sch |-> "strict", d |-> d, dev |-> "none", i |-> 0] : d \in 1..maxd}
@@ -345,7 +362,7 @@ MCWorld(q) ==
                         ELSE IF q.dev = "forged" THEN "forged"
                         ELSE IF q.dev = "subst" THEN "kO"
                         ELSE IF q.dev = "digest" THEN "digest"
-                        ELSE IF q.dev \in {"hmac", "unknownsig", "hmacpub", "digestkl", "wrongtype"} THEN q.dev
+                        ELSE IF q.dev \in {"hmac", "unknownsig", "hmacpub", "digestkl", "wrongtype", "wrongcurve"} THEN q.dev
                         ELSE IF q.dev = "loop" THEN leafKey
                         ELSE sig0
       servOf(n) == IF n = signer /\ q.dev \in {"absent", "nack", "timeout"} THEN q.dev ELSE "yes"
@@ -383,7 +400,7 @@ MCWorld(q) ==
       twin |-> IF twinDev THEN [n \in {"A1b"} |-> "A1"] ELSE [n \in {} |-> ""],
       replay |-> IF q.dev = "replaypkt" THEN [n \in {"P1r"} |-> "P1"]
                  ELSE IF q.dev = "replaycert" THEN [n \in {"A1r"} |-> "A1"] ELSE [n \in {} |-> ""],
-      kt |-> "ec",
+      alg |-> [k \in {} |-> ""],         \* every key "p256"; AlgWorld assigns algorithms by role
       epoch |-> 0,
       sch |-> q.sch,
       q |-> q,
@@ -420,8 +437,41 @@ WOrd == {MCWorld(q) : q \in {[sch |-> "strict", d |-> 2, dev |-> "none", i |-> 0
                              [sch |-> "strict", d |-> 2, dev |-> "twinforged", i |-> 1], [sch |-> "strict", d |-> 2, dev |-> "twinabsent", i |-> 1],
                              [sch |-> "strict", d |-> 2, dev |-> "forged", i |-> 1], [sch |-> "strict", d |-> 2, dev |-> "absent", i |-> 1],
                              [sch |-> "strict", d |-> 3, dev |-> "subst", i |-> 2], [sch |-> "peer", d |-> 3, dev |-> "none", i |-> 0]}}
-WEd == {[MCWorld(q) EXCEPT !.kt = "ed"] : q \in {[sch |-> "strict", d |-> 2, dev |-> "none", i |-> 0],
-                                                 [sch |-> "strict", d |-> 2, dev |-> "forged", i |-> 1]}}
+AllKeys == {"kRA", "kRB", "kA1", "kA2", "kA3", "kB1", "kO"}
+WEd == {[MCWorld(q) EXCEPT !.alg = [k \in AllKeys |-> "ed"]] : q \in {[sch |-> "strict", d |-> 2, dev |-> "none", i |-> 0],
+                                                                     [sch |-> "strict", d |-> 2, dev |-> "forged", i |-> 1]}}
+       \* only the intermediate certificate's key / only the anchor's key is an Ed25519 key
+       \cup {[MCWorld([sch |-> "strict", d |-> 2, dev |-> "none", i |-> 0]) EXCEPT !.alg = [k \in {x} |-> "ed"]] : x \in {"kA1", "kRA"}}
+
+(* Key algorithms by role. Chain RA - A1 - A2 - P1 (d = 3): kRA is the ANCHOR's key (it signs the anchor itself and
+   A1), kA1 the key of an INTERMEDIATE certificate (it signs A2), kA2 the PACKET SIGNER (it signs P1): link i (1 =
+   packet) is signed by the key of role 4 - i.  f = <<algorithm of kRA, of kA1, of kA2>>. The substituted key kO has
+   the algorithm of the key it stands in for. The world is cut down to what the chain needs (anchors RA and the badly
+   self-signed RAf, packet P1).        *)
+Role(k) == IF k = "kRA" THEN 1 ELSE IF k = "kA1" THEN 2 ELSE 3
+AlgWorld(q, f) ==
+  LET w == MCWorld(q)
+  IN [w EXCEPT !.alg = [k \in {"kRA", "kA1", "kA2", "kO"} |-> IF k = "kO" THEN f[IF q.i = 0 THEN 3 ELSE 4 - q.i] ELSE f[Role(k)]],
+               !.certs = [n \in (DOMAIN w.certs) \cap {"RA", "RAf", "A1", "A2"} |-> w.certs[n]],
+               !.pkts = [n \in {"P1"} |-> w.pkts[n]],
+               !.q = [sch |-> q.sch, d |-> q.d, dev |-> q.dev, i |-> q.i, ka |-> f]]
+Clean3 == [sch |-> "strict", d |-> 3, dev |-> "none", i |-> 0]
+Idx(seq, a) == CHOOSE i \in 1..Len(seq) : seq[i] = a
+\* all assignments / an orthogonal array of strength 2: every pair of roles gets every pair of algorithms
+AllAssign(seq) == {<<seq[i], seq[j], seq[k]>> : i, j, k \in 1..Len(seq)}
+PairAssign(seq) == {<<seq[i], seq[j], seq[((i + j) % Len(seq)) + 1]>> : i, j \in 1..Len(seq)}
+\* the signer of link i (role 4 - i) has algorithm a, the other two roles the next and the next but one of seq
+RotAssign(seq, a, i) == [r \in 1..3 |-> seq[((Idx(seq, a) - 1 + ((r + i + 2) % 3)) % Len(seq)) + 1]]
+AlgLinkDevs == {"forged", "subst", "wrongtype", "wrongcurve", "hmacpub"}
+DevQ(x, i) == [sch |-> "strict", d |-> 3, dev |-> x, i |-> i]
+\* quick: every pair (role, algorithm) x (role, algorithm) on the clean chain; a forged signature / a signature of another
+\* size at every link under every algorithm of that link's signer
+WAlgQ == {AlgWorld(Clean3, f) : f \in PairAssign(AlgSeq)}
+         \cup {AlgWorld(DevQ(t[1], t[2]), RotAssign(AlgSeq, t[3], t[2])) : t \in {"forged", "wrongcurve"} \X (1..3) \X (KeyAlgs \ {"rsa3072"})}
+\* thorough: every assignment on the clean chain; every deviation at every link under every pair
+WAlgT == {AlgWorld(Clean3, f) : f \in AllAssign(AlgSeqT)}
+         \cup {AlgWorld(DevQ(t[1], t[2]), t[3]) : t \in AlgLinkDevs \X (1..3) \X PairAssign(AlgSeqT)}
+MCAnchorsAlg(v) == {"RA", "RAf"}
 \* schemas with two roots of trust: an anchor that matches only one of them must be refused
 WTwin == {MCWorld([sch |-> "strict", d |-> 2, dev |-> x, i |-> 1]) : x \in {"twinforged", "twinabsent", "replaypkt", "replaycert"}}
 W2R == {MCWorld([sch |-> s, d |-> 2, dev |-> "none", i |-> 0]) : s \in {"two", "twin"}}
@@ -439,6 +489,12 @@ W_TwoRootsRefuse == ~(\E v \in Inst : inst[v].k = "refused" /\ Cardinality(W.roo
                                        /\ W.certs[inst[v].anchor].sig = W.certs[inst[v].anchor].key)
 W_HealedAccept == ~(\E i \in 1..Len(out) : \E j \in 1..Len(out) : i < j /\ out[i].p = out[j].p /\ out[i].v = out[j].v
                                                                     /\ out[i].r = "F" /\ out[j].r = "T" /\ out[j].e = 1)
+\* a packet is accepted over a chain whose anchor key, intermediate key and packet-signing key are of three algorithms
+W_AcceptMixedAlgs == ~(\E i \in 1..Len(out) : out[i].r = "T" /\ Cardinality({AlgOf(k) : k \in {"kRA", "kA1", "kA2"}}) = 3
+                                               /\ Len(wire[AppOf(out[i].v)]) = 2)
+\* ... and rejected because of one link, under a P-521 / RSA-2048 / Ed25519 key, that does not verify
+W_RejectBigKeyLink == ~(\E i \in 1..Len(out) : out[i].r = "F" /\ "ka" \in DOMAIN W.q /\ W.q.dev = "forged"
+                                                /\ AlgOf(W.certs[W.pkts[out[i].p].kl].key) \in {"p521", "rsa2048", "ed"})
 W_TwoInFlight == ~(\A v \in Slots : val[v].k = "run" /\ val[v].pc = "fetching")
 \* two validations of ONE instance wait for the same certificate, and both end accepted
 W_SameInstanceTwice == ~(\E v \in Inst : Cardinality({i \in 1..Len(out) : out[i].v = v /\ out[i].r = "T"}) >= 2
